@@ -75,6 +75,7 @@ use super::*;
 //@fn EvalContext::call_function
 //@fn EvalContext::reference
 //@fn EvalContext::symbol
+//@fn Expr::evaluate
 //@fn Expr::eval_rule
 //@fn Expr::eval_rec
 //@fn iif
